@@ -279,6 +279,25 @@ fn count_type_export_shapes(out: &mut Out, reqs_d: &[(String, D)]) {
 
 const VERSIONS: [&str; 9] = ["0.2.0", "0.2.1", "0.2.5", "0.3.0", "0.3.2", "1.0.0", "1.1.0", "1.1.2", "2.0.0"];
 
+/// Families of two semver tracks whose lookup keys are string prefixes of one another
+/// (`…@0.2` / `…@0.20`, `…@1` / `…@10`, `…@0.1` / `…@0.10`, `…@0.11`): (shorter key, longer keys).
+/// Every permutation is run, so the longer track is aggregated first in half of the orders.
+const PREFIX_FAMILIES: [(&[&str], &[&str]); 3] = [
+    (&["0.2.0", "0.2.1", "0.2.5"], &["0.20.0", "0.20.3", "0.21.0"]),
+    (&["1.0.0", "1.1.0", "1.1.2"], &["10.0.0", "10.2.0", "11.0.1"]),
+    (&["0.1.0", "0.1.10", "0.1.2"], &["0.10.0", "0.10.2", "0.11.0"]),
+];
+
+/// a version of prefix family `fam`: the shorter and the longer keys are equally likely
+fn family_version(r: &mut Rng, fam: usize) -> &'static str {
+    let (short, long) = PREFIX_FAMILIES[fam % PREFIX_FAMILIES.len()];
+    if r.chance(1, 2) {
+        *r.pick(short)
+    } else {
+        *r.pick(long)
+    }
+}
+
 fn rand_name(r: &mut Rng, base: &str, track_bias: usize) -> String {
     match r.below(6) {
         0 => base.to_string(),
@@ -295,11 +314,20 @@ fn gen_structural(out: &mut Out, r: &mut Rng) {
     let shared_collection = r.chance(1, 4);
     let bias = r.below(2);
     let versioned = r.chance(1, 3);
+    // a third of the versioned cases: two tracks whose keys are prefixes of one another
+    let family = if versioned && r.chance(1, 3) { Some(r.below(PREFIX_FAMILIES.len())) } else { None };
+    if family.is_some() {
+        out.count("shape:prefix-related-tracks");
+    }
     let extras = Extras { t: true, w: r.chance(1, 8) };
     let mut shared = Types::default();
     let mut reqs_d: Vec<(String, D)> = Vec::new();
     for _ in 0..n {
-        let name = if versioned { rand_name(r, "p:q/i", bias) } else { ["i", "j"][if r.chance(1, 6) { 1 } else { 0 }].to_string() };
+        let name = if let Some(fam) = family {
+            format!("p:q/i@{}", family_version(r, fam))
+        } else if versioned {
+            rand_name(r, "p:q/i", bias)
+        } else { ["i", "j"][if r.chance(1, 6) { 1 } else { 0 }].to_string() };
         let d = match shape {
             0 => item(["a", "b"][r.below(2)], if conflict && r.chance(1, 3) { 2 } else { r.below(2) }),
             1 => item(["c", "d", "e"][r.below(3)], if conflict && r.chance(1, 3) { 2 } else { r.below(2) }),
@@ -346,7 +374,18 @@ fn gen_structural(out: &mut Out, r: &mut Rng) {
 // ---------------------------------------------------------------------------------------------
 // generator 2: WIT packages with versions, `use`d interfaces and resources
 
-fn wit_package(r: &mut Rng, version: &str, with_resource: bool, variant_r: usize, funcs: &[&str]) -> String {
+/// `use_r` / `use_res`: does `user` have `use types.{r}` / `use types.{res}` (forced when one of
+/// its functions needs the type)?  Contributors of one case differ in their `use`s, so a `use`
+/// can be missing from the FIRST version of `user` that is aggregated and present in a later one.
+fn wit_package(
+    r: &mut Rng,
+    version: &str,
+    with_resource: bool,
+    variant_r: usize,
+    funcs: &[&str],
+    use_r: bool,
+    use_res: bool,
+) -> String {
     let mut s = format!("package p:q@{version};\n");
     s.push_str("interface types {\n");
     match variant_r {
@@ -358,8 +397,11 @@ fn wit_package(r: &mut Rng, version: &str, with_resource: bool, variant_r: usize
         s.push_str("  resource res;\n");
     }
     s.push_str("}\n");
-    s.push_str("interface user {\n  use types.{r};\n");
-    if with_resource {
+    s.push_str("interface user {\n");
+    if use_r || funcs.iter().any(|f| *f == "f" || *f == "g") {
+        s.push_str("  use types.{r};\n");
+    }
+    if with_resource && (use_res || funcs.contains(&"h")) {
         s.push_str("  use types.{res};\n");
     }
     for f in funcs {
@@ -384,10 +426,20 @@ fn gen_wit(out: &mut Out, r: &mut Rng) {
     // world order; with resources this is the only shape decoded components produce
     let grouped = with_resource || r.chance(1, 2);
     let n = if grouped { 2 + r.below(2) } else { 2 + r.below(3) };
+    // a fifth of the cases: package versions on two tracks whose keys are prefixes of one another
+    let family = if r.chance(1, 5) { Some(r.below(PREFIX_FAMILIES.len())) } else { None };
+    if family.is_some() {
+        out.count("shape:prefix-related-tracks");
+    }
+    // `use`s of `user` vary between the contributors in half of the cases
+    let vary_uses = r.chance(1, 2);
+    let mut use_sets: Vec<(bool, bool)> = Vec::new();
     let mut reqs = Vec::new();
     let mut groups: Vec<Vec<usize>> = Vec::new();
     for i in 0..n {
-        let version = if r.chance(3, 4) {
+        let version = if let Some(fam) = family {
+            family_version(r, fam)
+        } else if r.chance(3, 4) {
             [["0.2.0", "0.2.1", "0.2.5"], ["1.0.0", "1.1.0", "1.1.2"]][bias][r.below(3)]
         } else {
             *r.pick(&VERSIONS)
@@ -396,7 +448,12 @@ fn gen_wit(out: &mut Out, r: &mut Rng) {
         let mut funcs = vec!["f", "g", "h", "k"];
         r.shuffle(&mut funcs);
         funcs.truncate(1 + r.below(3));
-        let wit = wit_package(r, version, with_resource, variant_r, &funcs);
+        let (use_r, use_res) = if vary_uses { (r.chance(1, 2), r.chance(1, 2)) } else { (true, true) };
+        use_sets.push((
+            use_r || funcs.iter().any(|f| *f == "f" || *f == "g"),
+            with_resource && (use_res || funcs.contains(&"h")),
+        ));
+        let wit = wit_package(r, version, with_resource, variant_r, &funcs, use_r, use_res);
         let mut t = Types::default();
         let pkg = match types_from_wit("p", &wit, &mut t) {
             Ok(p) => p,
@@ -439,6 +496,12 @@ fn gen_wit(out: &mut Out, r: &mut Rng) {
             reqs.push(Req { types: rc.clone(), tid: i, name, kind });
         }
         groups.push(group);
+    }
+    if use_sets.iter().any(|u| *u != use_sets[0]) {
+        out.count("shape:wit-uses-differ-between-contributors");
+        if use_sets.iter().any(|u| u.1) && use_sets.iter().any(|u| !u.1) && with_resource {
+            out.count("shape:wit-resource-use-in-some-contributors-only");
+        }
     }
     let label = match (with_resource, grouped) {
         (true, _) => "wit-resource-components",
